@@ -4,6 +4,7 @@ package main
 
 import (
 	"go/ast"
+	"go/constant"
 	"go/token"
 	"go/types"
 	"strings"
@@ -55,31 +56,33 @@ func modelTypeOfRule(r *Run, vm *VisitorModel) map[string]*types.Named {
 			if vt == nil || vt.Enter[rule] == nil {
 				continue
 			}
-			ast.Inspect(vt.Enter[rule].Decl.Body, func(n ast.Node) bool {
-				if out[rule] != nil {
-					return false
-				}
-				switch x := n.(type) {
-				case *ast.CompositeLit:
-					if tv, ok := info.Types[x]; ok {
-						if nt := namedOf(tv.Type); nt != nil && nt.Obj().Pkg() == cp.Types {
-							out[rule] = nt
-						}
+			for _, body := range bodyWithHelpers(vm.pkg, vt.Enter[rule].Decl) {
+				ast.Inspect(body, func(n ast.Node) bool {
+					if out[rule] != nil {
+						return false
 					}
-				case *ast.CallExpr:
-					if fn := calleeOf(info, x); fn != nil && fn.Pkg() == cp.Types {
-						res := fn.Type().(*types.Signature).Results()
-						if res.Len() == 1 {
-							if nt := namedOf(res.At(0).Type()); nt != nil && nt.Obj().Pkg() == cp.Types {
-								if _, isStruct := nt.Underlying().(*types.Struct); isStruct {
-									out[rule] = nt
+					switch x := n.(type) {
+					case *ast.CompositeLit:
+						if tv, ok := info.Types[x]; ok {
+							if nt := namedOf(tv.Type); nt != nil && nt.Obj().Pkg() == cp.Types {
+								out[rule] = nt
+							}
+						}
+					case *ast.CallExpr:
+						if fn := calleeOf(info, x); fn != nil && fn.Pkg() == cp.Types {
+							res := fn.Type().(*types.Signature).Results()
+							if res.Len() == 1 {
+								if nt := namedOf(res.At(0).Type()); nt != nil && nt.Obj().Pkg() == cp.Types {
+									if _, isStruct := nt.Underlying().(*types.Struct); isStruct {
+										out[rule] = nt
+									}
 								}
 							}
 						}
 					}
-				}
-				return true
-			})
+					return true
+				})
+			}
 		}
 	}
 	// the comparison rule pushes a ComparisonVisitor; its model type is the struct it fills
@@ -486,53 +489,14 @@ func checkLiteralClass(r *Run) {
 					continue
 				}
 				construct := "formatLiteral:" + b.Name()
-				usesFormatFloat, guardsPoint := false, false
-				for _, st := range cc.Body {
-					ast.Inspect(st, func(m ast.Node) bool {
-						switch x := m.(type) {
-						case *ast.CallExpr:
-							if fn := calleeOf(info, x); fn != nil {
-								full := funcFullName(fn)
-								if full == "strconv.FormatFloat" || full == "strconv.AppendFloat" || strings.HasPrefix(full, "fmt.") {
-									usesFormatFloat = true
-								}
-								// a helper that normalises the text counts when it mentions "."
-								if fn.Pkg() == emit.Types {
-									for _, fd := range decls {
-										if info.Defs[fd.Name] == fn && fd.Body != nil {
-											ast.Inspect(fd.Body, func(k ast.Node) bool {
-												if bl, ok := k.(*ast.BasicLit); ok && bl.Kind == token.STRING && strings.Contains(bl.Value, ".") {
-													guardsPoint = true
-												}
-												if c2, ok := k.(*ast.CallExpr); ok {
-													if f2 := calleeOf(info, c2); f2 != nil && (funcFullName(f2) == "strconv.FormatFloat") {
-														usesFormatFloat = true
-													}
-												}
-												return true
-											})
-										}
-									}
-								}
-							}
-						case *ast.BasicLit:
-							if x.Kind == token.STRING && strings.Contains(x.Value, ".") {
-								guardsPoint = true
-							}
-							if x.Kind == token.CHAR && x.Value == "'.'" {
-								guardsPoint = true
-							}
-						}
-						return true
-					})
-				}
-				switch {
-				case !usesFormatFloat:
+				verdict, why := floatCaseVerdict(emit, decls, cc)
+				switch verdict {
+				case 0:
 					r.Undecide("C10-R3: float case of formatLiteral does not use a recognised formatter")
-				case guardsPoint:
-					r.Pass("C10-R3-literal-class", construct, cc.Pos(), "the float branch ensures a decimal point / exponent in the emitted text")
+				case 1:
+					r.Pass("C10-R3-literal-class", construct, cc.Pos(), "the float branch ensures a decimal point / exponent in the emitted text (%s)", why)
 				default:
-					r.Fail("C10-R3-literal-class", construct, cc.Pos(), "strconv.FormatFloat(v, 'f', -1, …) prints integral floats without a decimal point: the literal 1.0 is emitted as `1`, which parses back as an integer literal")
+					r.Fail("C10-R3-literal-class", construct, cc.Pos(), "%s: the literal is emitted as text of the integer-literal class (1.0 as `1`, 1e19 as `10000000000000000000`), which parses back as an integer literal or not at all", why)
 				}
 			}
 		}
@@ -605,108 +569,157 @@ func evalPrecedenceIdiom(p *packages.Package, decls map[string]*ast.FuncDecl, cc
 			if kParam == nil {
 				return true
 			}
-			// the helper is read with its own private helpers inlined (the parentheses may be written by one) and with
-			// a condition that was given a name resolved to the comparison it names
-			helperBody := emitterHelperBody(p, fd)
-			for si, fst := range helperBody.List {
-				ifs, ok := fst.(*ast.IfStmt)
-				if !ok {
-					continue
-				}
-				be, ok := ast.Unparen(resolveLocalCopy(info, fd.Body, ifs.Cond)).(*ast.BinaryExpr)
-				if !ok {
-					continue
-				}
-				var gcall *ast.CallExpr
-				paramOnRight := true
-				if c1, ok := ast.Unparen(be.X).(*ast.CallExpr); ok {
-					if id, ok := ast.Unparen(be.Y).(*ast.Ident); ok && info.Uses[id] == kParam {
-						gcall = c1
+			var evalHelper func(fd *ast.FuncDecl, kParam types.Object, depth int) bool
+			evalHelper = func(fd *ast.FuncDecl, kParam types.Object, depth int) bool {
+				decidedHere := false
+				// the helper is read with its own private helpers inlined (the parentheses may be written by one) and with
+				// a condition that was given a name resolved to the comparison it names
+				helperBody := emitterHelperBody(p, fd)
+				for si, fst := range helperBody.List {
+					ifs, ok := fst.(*ast.IfStmt)
+					if !ok {
+						continue
 					}
-				}
-				if gcall == nil {
-					if c2, ok := ast.Unparen(be.Y).(*ast.CallExpr); ok {
-						if id, ok := ast.Unparen(be.X).(*ast.Ident); ok && info.Uses[id] == kParam {
-							gcall = c2
-							paramOnRight = false
+					be, ok := ast.Unparen(resolveLocalCopy(info, fd.Body, ifs.Cond)).(*ast.BinaryExpr)
+					if !ok {
+						continue
+					}
+					var gcall *ast.CallExpr
+					paramOnRight := true
+					if c1, ok := ast.Unparen(be.X).(*ast.CallExpr); ok {
+						if id, ok := ast.Unparen(be.Y).(*ast.Ident); ok && info.Uses[id] == kParam {
+							gcall = c1
 						}
 					}
-				}
-				if gcall == nil {
-					continue
-				}
-				gfn := calleeOf(info, gcall)
-				if gfn == nil || gfn.Pkg() != p.Types {
-					continue
-				}
-				gSet, ok := typeSwitchInts(p, decls, declOf(gfn), child)
-				if !ok {
-					continue
-				}
-				// the comparison must come out the same for every possible pair; a mixed outcome means the operand is
-				// not always wrapped
-				var t, tSet, mixed bool
-				for gv := range gSet {
-					for kVal := range kSet {
-						l, rr := gv, kVal
-						if !paramOnRight {
-							l, rr = kVal, gv
+					if gcall == nil {
+						if c2, ok := ast.Unparen(be.Y).(*ast.CallExpr); ok {
+							if id, ok := ast.Unparen(be.X).(*ast.Ident); ok && info.Uses[id] == kParam {
+								gcall = c2
+								paramOnRight = false
+							}
 						}
-						var one bool
-						switch be.Op {
-						case token.LSS:
-							one = l < rr
-						case token.LEQ:
-							one = l <= rr
-						case token.GTR:
-							one = l > rr
-						case token.GEQ:
-							one = l >= rr
-						default:
-							mixed = true
-						}
-						if tSet && one != t {
-							mixed = true
-						}
-						t, tSet = one, true
 					}
-				}
-				if !tSet {
-					continue
-				}
-				if mixed {
-					found, result = true, false
-					allAgree = false
-					continue
-				}
-				bodyWrites := writesParen(ifs.Body)
-				bodyReturns := false
-				if len(ifs.Body.List) > 0 {
-					_, bodyReturns = ifs.Body.List[len(ifs.Body.List)-1].(*ast.ReturnStmt)
-				}
-				restWrites := false
-				for _, later := range helperBody.List[si+1:] {
-					if writesParen(later) {
+					if gcall == nil {
+						continue
+					}
+					gfn := calleeOf(info, gcall)
+					if gfn == nil || gfn.Pkg() != p.Types {
+						continue
+					}
+					gSet, ok := typeSwitchInts(p, decls, declOf(gfn), child)
+					if !ok {
+						continue
+					}
+					// the comparison must come out the same for every possible pair; a mixed outcome means the operand is
+					// not always wrapped
+					var t, tSet, mixed bool
+					for gv := range gSet {
+						for kVal := range kSet {
+							l, rr := gv, kVal
+							if !paramOnRight {
+								l, rr = kVal, gv
+							}
+							var one bool
+							switch be.Op {
+							case token.LSS:
+								one = l < rr
+							case token.LEQ:
+								one = l <= rr
+							case token.GTR:
+								one = l > rr
+							case token.GEQ:
+								one = l >= rr
+							default:
+								mixed = true
+							}
+							if tSet && one != t {
+								mixed = true
+							}
+							t, tSet = one, true
+						}
+					}
+					if !tSet {
+						continue
+					}
+					if mixed {
+						found, result = true, false
+						allAgree = false
+						decidedHere = true
+						continue
+					}
+					bodyWrites := writesParen(ifs.Body)
+					bodyReturns := false
+					if len(ifs.Body.List) > 0 {
+						_, bodyReturns = ifs.Body.List[len(ifs.Body.List)-1].(*ast.ReturnStmt)
+					}
+					restWrites := false
+					for _, later := range helperBody.List[si+1:] {
+						if writesParen(later) {
+							restWrites = true
+						}
+					}
+					if ifs.Else != nil && writesParen(ifs.Else) {
 						restWrites = true
 					}
+					var w bool
+					switch {
+					case bodyWrites:
+						w = t
+					case bodyReturns && restWrites:
+						w = !t
+					default:
+						continue
+					}
+					if found && w != result {
+						allAgree = false
+					}
+					found, result = true, w
+					decidedHere = true
 				}
-				if ifs.Else != nil && writesParen(ifs.Else) {
-					restWrites = true
+				if decidedHere || depth >= 2 {
+					return decidedHere
 				}
-				var w bool
-				switch {
-				case bodyWrites:
-					w = t
-				case bodyReturns && restWrites:
-					w = !t
-				default:
-					continue
-				}
-				if found && w != result {
-					allAgree = false
-				}
-				found, result = true, w
+				// the helper only passes the precedence on (a loop over the operands, a fast path for a single operand): the
+				// functions it hands the precedence to are judged, and an operand written through the emitter's general entry
+				// on the way is written without grouping
+				forwarded := false
+				ast.Inspect(fd.Body, func(m ast.Node) bool {
+					c2, ok := m.(*ast.CallExpr)
+					if !ok {
+						return true
+					}
+					f2 := calleeOf(info, c2)
+					if f2 == nil || f2.Pkg() != p.Types {
+						return true
+					}
+					if f2.Name() == "WriteExpression" {
+						found, result = true, false
+						allAgree = false
+						forwarded = true
+						return true
+					}
+					d2 := declOf(f2)
+					if d2 == nil || d2.Body == nil || d2.Type.Params == nil || d2 == fd {
+						return true
+					}
+					i2 := 0
+					for _, pl := range d2.Type.Params.List {
+						for _, nm := range pl.Names {
+							if i2 < len(c2.Args) {
+								if id, ok := ast.Unparen(c2.Args[i2]).(*ast.Ident); ok && info.Uses[id] == kParam {
+									if evalHelper(d2, info.Defs[nm], depth+1) {
+										forwarded = true
+									}
+								}
+							}
+							i2++
+						}
+					}
+					return true
+				})
+				return forwarded
 			}
+			evalHelper(fd, kParam, 0)
 			return true
 		})
 	}
@@ -932,4 +945,221 @@ func typeSwitchInts(p *packages.Package, decls map[string]*ast.FuncDecl, fd *ast
 func emitterHelperBody(p *packages.Package, fd *ast.FuncDecl) *ast.BlockStmt {
 	body, _ := inlineCallsOpt(p, fd, fd.Body, 2, func(fn *types.Func) bool { return fn.Exported() }, true)
 	return body
+}
+
+// floatCaseVerdict judges the formatter calls reachable from a float case of the literal formatter (the case body and
+// the same-package helpers it calls, one level). Every strconv.FormatFloat / AppendFloat whose text can lack a decimal
+// point or exponent (format 'f' or 'g' with precision -1 or 0) must either have its result checked for one before it is
+// used (the text is held in a local and the function tests it for '.'), or run only where the value is known not to be
+// integral by a total test (v == math.Trunc(v) and the like, negated). An integrality test through a conversion to an
+// integer type is not total: beyond the range of the type the conversion does not give the value back. 0 = no formatter
+// found, 1 = holds, 2 = fails.
+func floatCaseVerdict(emit *packages.Package, decls map[string]*ast.FuncDecl, cc *ast.CaseClause) (int, string) {
+	info := emit.TypesInfo
+	type site struct {
+		call *ast.CallExpr
+		root ast.Node // the body the call stands in
+	}
+	var sites []site
+	var bodies []ast.Node
+	for _, st := range cc.Body {
+		bodies = append(bodies, st)
+	}
+	usesFmt := false
+	seen := map[*ast.FuncDecl]bool{}
+	var collect func(n ast.Node, root ast.Node, depth int)
+	collect = func(n ast.Node, root ast.Node, depth int) {
+		ast.Inspect(n, func(m ast.Node) bool {
+			call, ok := m.(*ast.CallExpr)
+			if !ok {
+				return true
+			}
+			fn := calleeOf(info, call)
+			if fn == nil {
+				return true
+			}
+			full := funcFullName(fn)
+			switch {
+			case full == "strconv.FormatFloat" || full == "strconv.AppendFloat":
+				sites = append(sites, site{call, root})
+			case strings.HasPrefix(full, "fmt."):
+				usesFmt = true
+			case fn.Pkg() == emit.Types && depth < 2:
+				if fd := decls[declKeyOf(fn)]; fd != nil && fd.Body != nil && !seen[fd] {
+					seen[fd] = true
+					collect(fd.Body, fd.Body, depth+1)
+				}
+			}
+			return true
+		})
+	}
+	for _, b := range bodies {
+		collect(b, b, 0)
+	}
+	if len(sites) == 0 {
+		if usesFmt {
+			// fmt verbs: the old heuristic — the text must be checked for a point somewhere in the case
+			for _, b := range bodies {
+				if mentionsPointLiteral(b) {
+					return 1, "fmt formatting followed by a test for '.'"
+				}
+			}
+			return 2, "the float is formatted with package fmt and the text is never tested for a decimal point"
+		}
+		return 0, ""
+	}
+	constInt := func(e ast.Expr) (int64, bool) {
+		tv, has := info.Types[e]
+		if !has || tv.Value == nil {
+			return 0, false
+		}
+		return constant.Int64Val(constant.ToInt(tv.Value))
+	}
+	isTotalIntegralTest := func(e ast.Expr) (isTest, total bool) {
+		be, ok := ast.Unparen(e).(*ast.BinaryExpr)
+		if !ok || (be.Op != token.EQL && be.Op != token.NEQ) {
+			return false, false
+		}
+		for _, side := range []ast.Expr{be.X, be.Y} {
+			call, ok := ast.Unparen(side).(*ast.CallExpr)
+			if !ok {
+				continue
+			}
+			if fn := calleeOf(info, call); fn != nil && fn.Pkg() != nil && fn.Pkg().Path() == "math" {
+				switch fn.Name() {
+				case "Trunc", "Floor", "Ceil", "Round", "RoundToEven":
+					return true, true
+				}
+			}
+			// float64(int64(v)): a conversion to a float type of a conversion to an integer type
+			if tv, has := info.Types[call.Fun]; has && tv.IsType() && len(call.Args) == 1 {
+				if inner, ok := ast.Unparen(call.Args[0]).(*ast.CallExpr); ok {
+					if itv, has := info.Types[inner.Fun]; has && itv.IsType() {
+						if b, ok := itv.Type.Underlying().(*types.Basic); ok && b.Info()&types.IsInteger != 0 {
+							return true, false
+						}
+					}
+				}
+			}
+		}
+		return false, false
+	}
+	for _, s := range sites {
+		args := s.call.Args
+		if fn := calleeOf(info, s.call); fn != nil && fn.Name() == "AppendFloat" && len(args) == 5 {
+			args = args[1:]
+		}
+		if len(args) != 4 {
+			return 2, "a float formatter call that could not be read"
+		}
+		f, okF := constInt(args[1])
+		prec, okP := constInt(args[2])
+		if !okF || !okP {
+			return 2, "strconv.FormatFloat is called with a format or precision that is not a constant"
+		}
+		switch {
+		case (f == 'e' || f == 'E'):
+			continue // always has an exponent
+		case (f == 'f' || f == 'F') && prec >= 1:
+			continue // always has a decimal point
+		}
+		// the text may lack the point: checked afterwards, or reached only for non-integral values?
+		if held := resultHeldAndTested(info, s.root, s.call); held {
+			continue
+		}
+		guarded := false
+		partial := false
+		for _, l := range controlConds(s.root, s.call) {
+			e, neg := l.Expr, l.Neg
+			for {
+				u, ok := ast.Unparen(e).(*ast.UnaryExpr)
+				if !ok || u.Op != token.NOT {
+					break
+				}
+				e, neg = u.X, !neg
+			}
+			isTest, total := isTotalIntegralTest(e)
+			if !isTest {
+				continue
+			}
+			be := ast.Unparen(e).(*ast.BinaryExpr)
+			nonIntegral := (be.Op == token.EQL) == neg // `v == trunc(v)` negated, or `v != trunc(v)` held
+			if !nonIntegral {
+				continue
+			}
+			if total {
+				guarded = true
+			} else {
+				partial = true
+			}
+		}
+		if guarded {
+			continue
+		}
+		if partial {
+			return 2, "strconv.FormatFloat(v, 'f', -1, …) is reached for every value that fails an integrality test made through a conversion to an integer type; that test is not total — beyond the range of the integer type (1e19, ±Inf) the conversion does not give the value back, so an integral float takes the branch that prints no decimal point"
+		}
+		return 2, "strconv.FormatFloat(v, 'f', -1, …) prints integral floats without a decimal point and nothing checks the text or the value"
+	}
+	return 1, itoa(len(sites)) + " formatter call(s) judged"
+}
+
+func mentionsPointLiteral(n ast.Node) bool {
+	found := false
+	ast.Inspect(n, func(k ast.Node) bool {
+		if bl, ok := k.(*ast.BasicLit); ok {
+			if bl.Kind == token.STRING && strings.Contains(bl.Value, ".") {
+				found = true
+			}
+			if bl.Kind == token.CHAR && bl.Value == "'.'" {
+				found = true
+			}
+		}
+		return !found
+	})
+	return found
+}
+
+// resultHeldAndTested: the call's result is stored in a local of the enclosing body and that body tests the local with
+// a strings function against text containing '.', i.e. the text is examined before use.
+func resultHeldAndTested(info *types.Info, root ast.Node, call *ast.CallExpr) bool {
+	var local types.Object
+	ast.Inspect(root, func(n ast.Node) bool {
+		switch x := n.(type) {
+		case *ast.AssignStmt:
+			for i, rhs := range x.Rhs {
+				if ast.Unparen(rhs) == ast.Expr(call) && i < len(x.Lhs) {
+					if id, ok := ast.Unparen(x.Lhs[i]).(*ast.Ident); ok {
+						local = info.ObjectOf(id)
+					}
+				}
+			}
+		case *ast.ValueSpec:
+			for i, v := range x.Values {
+				if ast.Unparen(v) == ast.Expr(call) && i < len(x.Names) {
+					local = info.ObjectOf(x.Names[i])
+				}
+			}
+		}
+		return local == nil
+	})
+	if local == nil {
+		return false
+	}
+	tested := false
+	ast.Inspect(root, func(n ast.Node) bool {
+		c, ok := n.(*ast.CallExpr)
+		if !ok || len(c.Args) < 2 {
+			return true
+		}
+		fn := calleeOf(info, c)
+		if fn == nil || fn.Pkg() == nil || (fn.Pkg().Path() != "strings" && fn.Pkg().Path() != "bytes") {
+			return true
+		}
+		if id, ok := ast.Unparen(c.Args[0]).(*ast.Ident); ok && info.Uses[id] == local && mentionsPointLiteral(c.Args[1]) {
+			tested = true
+		}
+		return !tested
+	})
+	return tested
 }
